@@ -14,6 +14,9 @@ let table : (string * ((Model.z list -> Model.z list) * (Model.z list -> Model.z
   ("C04", (Model.run_svc, Model.chk_c04));
   ("C05", (Model.run_svc, Model.chk_c05));
   ("C09", (Model.run_svc, Model.chk_c09));
+  ("C02", (Model.run_ipam, Model.chk_c02));
+  ("C03", (Model.run_ipam, Model.chk_c03));
+  ("C08", (Model.run_ipam, Model.chk_c08));
 ]
 
 (* optional diagnostics: which clause of the property failed *)
@@ -24,4 +27,7 @@ let why : (string * (Model.z list -> Model.z list -> Model.z)) list = [
   ("C04", Model.why_svc (Model.Zpos (Model.XO (Model.XO Model.XH))));
   ("C05", Model.why_svc (Model.Zpos (Model.XI (Model.XO Model.XH))));
   ("C09", Model.why_svc (Model.Zpos (Model.XI (Model.XO (Model.XO Model.XH)))));
+  ("C02", Model.why_ipam (Model.Zpos (Model.XO Model.XH)));
+  ("C03", Model.why_ipam (Model.Zpos (Model.XI Model.XH)));
+  ("C08", Model.why_ipam (Model.Zpos (Model.XO (Model.XO (Model.XO Model.XH)))));
 ]
